@@ -52,16 +52,29 @@ CHECKS = {
  "C13": dict(tech="runtime monitoring: LSP answers at probed positions vs spans from the independent offset-tracking scan (UTF-16 columns, LF and CRLF)",
    text="Exploration: boundary probes (+-1) around every link, line starts/ends, past EOL/EOF; definition / prepareRename act on link L iff inside its span, rename range == destination span, code actions at a line match the covering block, returned locations (symbols, hints, references) name the right line; four classes {LF,CRLF} x {ASCII, multi-byte/astral}.",
    note="prepareRename ranges for titled / marked-up / wiki links and links on continuation lines of list items are open findings with exact signatures", ref="§3 C13"),
+ "C03": dict(tech="runtime monitoring: panic hook on every thread + process exit status + CPU budget + liveness probe while hostile documents are driven through the library API and the real LSP threads in subprocess workers; size ramps in their own child processes",
+   text="Exploration: fragment soups, character mutations, hostile-construct documents and size ramps (sibling chains, nesting, long lines, many links) driven through load / update / format / paths / search / link_at and every LSP request at every line on real default-size stacks; any panic on any thread, a dead process (stack overflow, abort), a CPU overrun or an unanswered liveness probe refutes. Sanitizer reruns (Miri / ASan) in the thorough tier are reported separately.",
+   note="termination is restated as CPU budgets; stack behaviour judged in a release build up to the sizes listed in the evidence (larger sibling chains / nesting are open findings with exact signatures)", ref="§3 C03"),
+ "C14": dict(tech="runtime monitoring: real temp directories + disk-backed server; URI round trips (Url::from_file_path / to_file_path) checked against the files on disk",
+   text="Exploration: (base path class x file name class) grid: the URI addresses the loaded note, an edit through the URI updates it without creating a second note, links reach it, response URIs open existing files.",
+   note="file names ending in .md.md are an open finding", ref="§3 C14"),
+ "C16": dict(tech="runtime monitoring: canonical dumps from separate OS processes (fresh hash seeds) under different rayon pool sizes, load permutations and build modes, compared byte for byte",
+   text="Exploration: per library 12 (quick) / 48 (thorough) processes x RAYON_NUM_THREADS {1,2,3,4,8,16} x {import, one-by-one insert} x permutations; all dumps must be identical.",
+   note="libraries of 50-400 notes with duplicate titles and equal ranks", ref="§3 C16"),
+ "C19": dict(cat="fault_enumeration", tech="fault enumeration: the built `iwe normalize` binary under strace fault injection (SIGKILL / ENOSPC at every write-phase syscall, RLIMIT_FSIZE budgets) with directory snapshots before/after",
+   text="Fault enumeration: fault-free run checked for in-place, export-exact rewriting and no collateral changes (snapshot + syscall log); then EVERY write-phase syscall of the trace is a crash point (kill at k-th write-mode openat / write / rename, ENOSPC at k-th write) plus file-size limits; after each run every note must hold its complete old or new text.",
+   note="syscall granularity; power-loss reordering out of reach", ref="§3 C19"),
 }
 
 
 
+
 NOT_YET = {
- "C03": "check under construction",
 
 
- "C14": "check under construction", "C16": "check under construction",
- "C19": "check under construction",
+
+
+
 
 }
 
